@@ -9,7 +9,7 @@
    page", "mails are only appended, and each appended one satisfies P". *)
 From AB Require Import World.Step Base.TextProofs Proofs.EvLogic Proofs.Neutral Proofs.HandlerEvents Proofs.MonadInv
   Proofs.StoreLogic Proofs.Gate Proofs.LogoutProofs Proofs.ExpireProofs Proofs.StepLift2 Proofs.RegisterProofs
-  Proofs.SameView Proofs.SameView2.
+  Proofs.SameView Proofs.SameView2 Proofs.StepGuard.
 Open Scope Z_scope.
 
 (* ---- the relational frame logic ---------------------------------------------------------------- *)
@@ -231,9 +231,9 @@ Proof.
 Qed.
 Transparent k_uid.
 
-(* admitted, from a state without a context user: the requirements hold, and the context user
+(* let through, from a state without a context user: the requirements hold, and the context user
    is now the record stored under the id the request is served as *)
-Lemma gate_admits_record mp full tf fr h h' :
+Lemma gate_passes_record mp full tf fr h h' :
   h_cuser h = None -> auth_middleware E mp full tf fr h = (Ok true, h') ->
   reqs_ok E full tf = true /\ bempty (cur_pid h) = false /\
   exists u, ulookup (cur_pid h) (s_users (h_st h)) = Some u /\ h_cuser h' = Some u /\
@@ -400,9 +400,15 @@ Qed.
 
 Lemma app_handler_spec E h r h' : app_handler E h = (r, h') -> r = Ok tt /\ h_st h' = h_st h.
 Proof.
-  unfold app_handler, current_user_id, bind, get_h, write_resp, modify. 
-  destruct (h_cpid h); cbv [ret]; intros Eq; inversion Eq; subst; split; try reflexivity;
-    destruct (h_out h); reflexivity.
+  intros Eq. unfold app_handler in Eq.
+  apply bind_inv in Eq as [(pid & h1 & E1 & E2)|[(e & E1 & _)|(E1 & _)]].
+  - assert (h1 = h) as ->.
+    { unfold current_user_id, bind, get_h in E1. destruct (h_cpid h); cbv [ret] in E1; congruence. }
+    match type of E2 with write_resp ?x _ = _ => revert E2; generalize x end. intros x E2.
+    split; [|exact (pres_write_resp h_st x _ _ _ E2)].
+    unfold write_resp, modify in E2. congruence.
+  - exfalso. unfold current_user_id, bind, get_h in E1. destruct (h_cpid h); cbv [ret] in E1; congruence.
+  - exfalso. unfold current_user_id, bind, get_h in E1. destruct (h_cpid h); cbv [ret] in E1; congruence.
 Qed.
 
 (* everything behind expire and remember: if the application page was written, the gate loaded
@@ -417,7 +423,7 @@ Lemma stack_core_ran E' full tf fr l c h r h' :
 Proof.
   intros Hc Ho Eq Ran. unfold stack_core in Eq.
   apply gate_stage in Eq as (h1 & G & Eq); [|apply rout_auth_middleware|exact Ho|exact Ran].
-  destruct (gate_admits_record _ _ _ _ _ _ _ Hc G) as (Rq & Nb & u & Lu & Cu & O1 & S1 & _).
+  destruct (gate_passes_record _ _ _ _ _ _ _ Hc G) as (Rq & Nb & u & Lu & Cu & O1 & S1 & _).
   assert (Ho1 : h_out h1 = None) by congruence.
   apply gate_stage in Eq as (h2 & G2 & Eq);
     [|destruct l; [apply rout_lock_mw|apply rl_ret; exact _]|exact Ho1|exact Ran].
@@ -440,7 +446,7 @@ Qed.
 
 (* the expire stage: always succeeds, writes nothing, touches neither storage nor the context, and
    a user id it shows downstream is the session's *)
-Lemma expire_stage_spec E e h x h1 :
+Lemma expire_stage_spec E (e : bool) h x h1 :
   (if e then expire_mw E else ret (e_sess E)) h = (x, h1) ->
   exists s, x = Ok s /\ out3 h1 = out3 h /\ h_cpid h1 = h_cpid h /\ h_st h1 = h_st h /\
     (bempty (aget k_uid s) = false -> aget k_uid s = aget k_uid (e_sess E)).
@@ -544,4 +550,795 @@ Proof.
     split; [rewrite <- S1, <- S2; exact Lu|]. split; [rewrite St; congruence|]. split; [exact Lk|exact Cf].
   - exists pid, u. split; [right; auto|].
     split; [rewrite <- S1, <- S2; exact Lu|]. split; [rewrite St; congruence|]. split; [exact Lk|exact Cf].
+Qed.
+
+(* the readings of the two conclusions in terms of the record's fields *)
+Lemma is_locked_false_iff E u : is_locked E u = false <-> u_locked u <= o_now (e_O E).
+Proof. unfold is_locked, locked_at, ltriple. cbn. apply Z.ltb_ge. Qed.
+Lemma is_locked_true_iff E u : is_locked E u = true <-> o_now (e_O E) < u_locked u.
+Proof. unfold is_locked, locked_at, ltriple. cbn. apply Z.ltb_lt. Qed.
+
+(* ---- the refusals, on the stack behind expire and remember ---------------------------------------- *)
+Lemma gate_passes_if E mp full tf fr h u :
+  reqs_ok E full tf = true -> h_cuser h = None -> bempty (cur_pid E h) = false ->
+  fault_at (h_ncalls h) (o_faults (e_O E)) = None ->
+  ulookup (cur_pid E h) (s_users (h_st h)) = Some u ->
+  auth_middleware E mp full tf fr h = (Ok true, after_load_pid E h <| h_cuser := Some u |>).
+Proof.
+  intros Rq Hc Hb Hf Hu. unfold auth_middleware. rewrite (reqs_ok_true _ _ _ Rq). unfold try.
+  rewrite (load_cu_eq _ _ Hc), Hb, Hf, Hu. reflexivity.
+Qed.
+
+Definition refusal_outcome (E : env) (p : bytes) (h h' : hst) : Prop :=
+  h_st h' = h_st h /\ h_cev h' = h_cev h /\
+  ((h_sev h' = h_sev h ++ refusal_tail E /\
+    h_out h' = Some (mkWritten (refusal_redirect E p) (h_sev h ++ refusal_tail E) (h_cev h))) \/
+   (c_api (e_cfg E) = true /\ h_sev h' = h_sev h /\ h_out h' = None /\
+    exists n ek, fault_at n (o_faults (e_O E)) = Some ek)).
+
+(* the lock middleware installed, the account the request is served as locked: the failure
+   redirect to the lock module's path, nothing stored, the application handler not reached *)
+Lemma stack_core_lock_refuses E full tf fr c h u :
+  h_cuser h = None -> h_out h = None -> reqs_ok E full tf = true -> bempty (cur_pid E h) = false ->
+  fault_at (h_ncalls h) (o_faults (e_O E)) = None ->
+  ulookup (cur_pid E h) (s_users (h_st h)) = Some u -> is_locked E u = true ->
+  exists h', stack_core E full tf fr true c h = (Ok tt, h') /\
+             refusal_outcome E (p_lock_notok_of (e_cfg E)) h h'.
+Proof.
+  intros Hc Ho Rq Hb Hf Hu Lk. unfold stack_core.
+  rewrite (bind_ok _ _ _ _ _ (gate_passes_if E false full tf fr h u Rq Hc Hb Hf Hu)). cbn [negb].
+  set (h1 := after_load_pid E h <| h_cuser := Some u |>).
+  assert (C1 : h_cuser h1 = Some u) by reflexivity.
+  assert (O1 : h_out h1 = None) by exact Ho.
+  destruct (lock_mw E h1) as [x h2] eqn:Lm.
+  pose proof Lm as Lm'. rewrite (lock_mw_cached E _ _ C1), Lk in Lm'.
+  destruct (lock_refusal_shape E _ _ _ _ C1 O1 Lm') as (-> & A2 & A3 & _ & _ & _ & A7).
+  exists h2. split; [rewrite (bind_ok _ _ _ _ _ Lm); reflexivity|].
+  split; [exact A2|]. split; [exact A3|exact A7].
+Qed.
+
+(* the confirm middleware installed, the account not confirmed (and not stopped by the lock
+   middleware before): the failure redirect to the confirm module's path *)
+Lemma stack_core_confirm_refuses E full tf fr l h u :
+  h_cuser h = None -> h_out h = None -> reqs_ok E full tf = true -> bempty (cur_pid E h) = false ->
+  fault_at (h_ncalls h) (o_faults (e_O E)) = None ->
+  ulookup (cur_pid E h) (s_users (h_st h)) = Some u ->
+  (l = true -> is_locked E u = false) -> u_confirmed u = false ->
+  exists h', stack_core E full tf fr l true h = (Ok tt, h') /\
+             refusal_outcome E (p_confirm_notok_of (e_cfg E)) h h'.
+Proof.
+  intros Hc Ho Rq Hb Hf Hu Lk Cf. unfold stack_core.
+  rewrite (bind_ok _ _ _ _ _ (gate_passes_if E false full tf fr h u Rq Hc Hb Hf Hu)). cbn [negb].
+  set (h1 := after_load_pid E h <| h_cuser := Some u |>).
+  assert (C1 : h_cuser h1 = Some u) by reflexivity.
+  assert (O1 : h_out h1 = None) by exact Ho.
+  assert (L1 : (if l then lock_mw E else ret true) h1 = (Ok true, h1)).
+  { destruct l; [|reflexivity]. rewrite (lock_mw_cached E _ _ C1), (Lk eq_refl). reflexivity. }
+  rewrite (bind_ok _ _ _ _ _ L1). cbn [negb].
+  destruct (confirm_mw E h1) as [x h2] eqn:Cm.
+  pose proof Cm as Cm'. rewrite (confirm_mw_cached E _ _ C1), Cf in Cm'.
+  destruct (confirm_refusal_shape E _ _ _ _ C1 O1 Cm') as (-> & A2 & A3 & _ & _ & _ & A7).
+  exists h2. split; [rewrite (bind_ok _ _ _ _ _ Cm); reflexivity|].
+  split; [exact A2|]. split; [exact A3|exact A7].
+Qed.
+
+(* ---- on [step] ------------------------------------------------------------------------------------- *)
+Lemma rout_error_tail E e :
+  rl (Rout not_app) (log [q_path (e_req E)] ;;;
+                     (if c_err_writes (e_cfg E) then write_resp (RespStatus 500) else ret tt) ;;; @fail unit e).
+Proof. rl_go; rout_side. Qed.
+
+Section STEP.
+Variable C : crypto.
+Variable cfg : config.
+
+(* a request to an application route that is answered with the application's page: the account it
+   was served as - named by the browser's session or, with the remember middleware in the stack,
+   by its remember cookie - is held in storage, is not locked if the lock middleware is in the
+   stack, and is confirmed if the confirm middleware is; no hypothesis on storage or the oracle *)
+Theorem step_app_served_lemma w req O full tf fr l c r e :
+  q_route req = RApp full tf fr l c r e ->
+  let b := q_browser req in
+  let E := mkEnv C cfg O req (jar_get b (w_cook w)) (jar_get b (w_sess w)) in
+  let w' := fst (step C cfg w (AReq req) O) in
+  let o := snd (step C cfg w (AReq req) O) in
+  (exists d, ob_resp o = Some (RespPage 200 (bs "app") d)) ->
+  ob_err o = false /\ ob_panic o = false /\
+  exists pid u, stack_names E r pid /\ ulookup pid (s_users (w_st w)) = Some u /\
+    s_users (w_st w') = s_users (w_st w) /\
+    (l = true -> u_locked u <= o_now O) /\ (c = true -> u_confirmed u = true).
+Proof.
+  intros Rt b E w' o (d & Hd).
+  set (h0 := init_hst (w_st w) O).
+  destruct (serve E h0) as [x h] eqn:Es.
+  destruct (step_shape C cfg w req O _ _ Es) as (Ob & St & _). fold w' in St. fold o in Ob.
+  rewrite Ob in Hd |- *.
+  assert (Ran : app_ran h).
+  { unfold obs_of in Hd. cbn [ob_resp] in Hd. destruct (h_out h) as [wr|] eqn:Hw; [|discriminate Hd].
+    exists wr. split; [exact Hw|]. exists d. cbn [option_map] in Hd. congruence. }
+  rewrite (serve_app E _ _ _ _ _ _ _ Rt) in Es. unfold with_error_handler in Es.
+  assert (Core : forall res h1, app_stack E full tf fr l c r e h0 = (res, h1) -> app_ran h1 ->
+            res = Ok tt /\
+            exists pid u, stack_names E r pid /\ ulookup pid (s_users (w_st w)) = Some u /\
+              s_users (h_st h1) = s_users (w_st w) /\
+              (l = true -> u_locked u <= o_now O) /\ (c = true -> u_confirmed u = true)).
+  { intros res h1 Sk Ran1.
+    destruct (stack_app_ran_lemma E full tf fr l c r e h0 res h1 eq_refl eq_refl eq_refl Sk Ran1)
+      as (Hr & pid & u & Nm & Lu & Su & Lk & Cf).
+    split; [exact Hr|]. exists pid, u. split; [exact Nm|]. split; [exact Lu|]. split; [exact Su|].
+    split; [|exact Cf]. intros Hl. apply (is_locked_false_iff E u). exact (Lk Hl). }
+  apply try_inv in Es as [(res & h1 & Sk & NP & K)|(Sk & ->)].
+  - destruct res as [[]|er|]; [| |congruence].
+    + inversion K; subst x h1. destruct (Core _ _ Sk Ran) as (_ & pid & u & A1 & A2 & A3 & A4).
+      split; [reflexivity|]. split; [reflexivity|]. exists pid, u. rewrite St. auto.
+    + exfalso. destruct (rout_error_tail E er _ _ _ K) as [Hk|(wr & Hk & Nk)].
+      * assert (Ran1 : app_ran h1) by (destruct Ran as (wr & Hw & Ap); exists wr; split; [congruence|exact Ap]).
+        destruct (Core _ _ Sk Ran1) as (Hr & _). discriminate Hr.
+      * destruct Ran as (wr' & Hw & Ap). rewrite Hk in Hw. inversion Hw; subst wr'. exact (Nk Ap).
+  - exfalso. destruct (Core _ _ Sk Ran) as (Hr & _). discriminate Hr.
+Qed.
+
+(* the start of the stack when the session names a user and (with the expire middleware in the
+   stack) has not expired: expire at most refreshes its stamp, remember does nothing *)
+Lemma stack_head_alive E full tf fr l c r (e : bool) h :
+  h_cpid h = None -> bempty (aget k_uid (e_sess E)) = false ->
+  (e = true -> stamp_expired (e_cfg E) (o_now (e_O E)) (e_sess E) = false) ->
+  exists h1, app_stack E full tf fr l c r e h = stack_core (with_sess E (e_sess E)) full tf fr l c h1 /\
+    h_out h1 = h_out h /\ h_cuser h1 = h_cuser h /\ h_cpid h1 = None /\ h_st h1 = h_st h /\
+    h_ncalls h1 = h_ncalls h /\ h_cev h1 = h_cev h /\
+    h_sev h1 = h_sev h ++ (if e then [Put k_last_action (zdec (o_now (e_O E)))] else []).
+Proof.
+  intros Hp Hb Hx.
+  assert (Hu : ahas k_uid (e_sess E) = true).
+  { unfold ahas. unfold aget in Hb. destruct (alookup k_uid (e_sess E)); [reflexivity|discriminate Hb]. }
+  assert (Hd : exists h1, (if e then expire_mw E else ret (e_sess E)) h = (Ok (e_sess E), h1) /\
+             h_out h1 = h_out h /\ h_cuser h1 = h_cuser h /\ h_cpid h1 = None /\ h_st h1 = h_st h /\
+             h_ncalls h1 = h_ncalls h /\ h_cev h1 = h_cev h /\
+             h_sev h1 = h_sev h ++ (if e then [Put k_last_action (zdec (o_now (e_O E)))] else [])).
+  { destruct e.
+    - eexists. split; [apply (expire_mw_alive_eq E h Hu (Hx eq_refl))|]. cbn. auto 10.
+    - exists h. rewrite app_nil_r. auto 10. }
+  destruct Hd as (h1 & X1 & A).
+  exists h1. split; [|exact A]. destruct A as (_ & _ & P1 & _).
+  rewrite app_stack_cut, (bind_ok _ _ _ _ _ X1). unfold stack_tail.
+  assert (Rm : remember_stage E r (e_sess E) h1 = (Ok (e_sess E), h1)).
+  { apply remember_stage_idle; [exact P1|]. right. apply remember_mw_hasid; [exact P1|exact Hb]. }
+  rewrite (bind_ok _ _ _ _ _ Rm). reflexivity.
+Qed.
+
+(* what a refused request looks like from outside *)
+Definition step_refused (w : world) (req : request) (O : oracle) (p : bytes) : Prop :=
+  let w' := fst (step C cfg w (AReq req) O) in
+  let o := snd (step C cfg w (AReq req) O) in
+  w_st w' = w_st w /\ ob_err o = false /\ ob_panic o = false /\
+  (ob_resp o = Some (if c_api cfg then RespRedirectAPI 307 p true else RespRedirect302 p) \/
+   (ob_resp o = None /\ c_api cfg = true /\ exists n ek, fault_at n (o_faults O) = Some ek)) /\
+  (c_api cfg = false -> ob_resp o <> None ->
+     alookup k_flash_err (jar_get (q_browser req) (w_sess w')) = Some v_flash).
+
+Lemma step_refusal_of_core w req O full tf fr l c r e p :
+  q_route req = RApp full tf fr l c r e ->
+  let b := q_browser req in
+  let j := jar_get b (w_sess w) in
+  let E := mkEnv C cfg O req (jar_get b (w_cook w)) j in
+  bempty (aget k_uid j) = false -> (e = true -> stamp_expired cfg (o_now O) j = false) ->
+  (forall h, h_cuser h = None -> h_out h = None -> h_cpid h = None -> h_ncalls h = 0%nat -> h_st h = w_st w ->
+     exists h', stack_core E full tf fr l c h = (Ok tt, h') /\ refusal_outcome E p h h') ->
+  step_refused w req O p.
+Proof.
+  intros Rt b j E Hb Hx Core.
+  set (h0 := init_hst (w_st w) O).
+  destruct (stack_head_alive E full tf fr l c r e h0 eq_refl Hb Hx) as (h1 & Cut & O1 & C1 & P1 & S1 & N1 & V1 & _).
+  destruct (Core h1 C1 O1 P1 N1 S1) as (h' & Sk & St & Cv & Out).
+  assert (Es : serve E h0 = (Ok tt, h')).
+  { rewrite (serve_app E _ _ _ _ _ _ _ Rt). apply error_handler_ok. rewrite Cut. exact Sk. }
+  destruct (step_shape C cfg w req O _ _ Es) as (Ob & Sw & Jr). fold b in Jr.
+  unfold step_refused. cbv zeta. rewrite Ob.
+  split; [rewrite Sw, St; exact S1|]. split; [reflexivity|]. split; [reflexivity|].
+  unfold obs_of. cbn [ob_resp].
+  destruct Out as [(Sv & Ow)|(Api & Sv & Ow & Hf)]; rewrite Ow; cbn [option_map w_resp].
+  - split; [left; reflexivity|]. intros Api _. rewrite Ow in Jr. cbn [w_sev w_cev] in Jr. destruct Jr as (Js & _).
+    fold b. rewrite Js. unfold refusal_tail. cbn [e_cfg E]. rewrite Api. rewrite apply_events_app.
+    unfold apply_events at 1. cbn [fold_left apply_event]. apply alookup_aput_eq.
+  - split; [right; auto|]. intros _ Hn. exfalso. apply Hn. reflexivity.
+Qed.
+
+(* the lock middleware in the stack and the session's account locked: refused *)
+Theorem step_lock_mw_refuses_lemma w req O full tf fr c r e u :
+  q_route req = RApp full tf fr true c r e ->
+  let b := q_browser req in
+  let j := jar_get b (w_sess w) in
+  let E := mkEnv C cfg O req (jar_get b (w_cook w)) j in
+  bempty (aget k_uid j) = false -> (e = true -> stamp_expired cfg (o_now O) j = false) ->
+  reqs_ok E full tf = true -> fault_at 0 (o_faults O) = None ->
+  ulookup (aget k_uid j) (s_users (w_st w)) = Some u -> o_now O < u_locked u ->
+  step_refused w req O (p_lock_notok_of cfg).
+Proof.
+  intros Rt b j E Hb Hx Rq Hf Hu Lk.
+  apply (step_refusal_of_core w req O full tf fr true c r e (p_lock_notok_of cfg) Rt Hb Hx).
+  intros h Hc Ho Hp Hn Hs.
+  apply (stack_core_lock_refuses E full tf fr c h u Hc Ho Rq).
+  - unfold cur_pid. rewrite Hp. exact Hb.
+  - rewrite Hn. exact Hf.
+  - unfold cur_pid. rewrite Hp, Hs. exact Hu.
+  - apply is_locked_true_iff. exact Lk.
+Qed.
+
+(* the confirm middleware in the stack and the session's account not confirmed (and, with the lock
+   middleware in front, not locked): refused *)
+Theorem step_confirm_mw_refuses_lemma w req O full tf fr l r e u :
+  q_route req = RApp full tf fr l true r e ->
+  let b := q_browser req in
+  let j := jar_get b (w_sess w) in
+  let E := mkEnv C cfg O req (jar_get b (w_cook w)) j in
+  bempty (aget k_uid j) = false -> (e = true -> stamp_expired cfg (o_now O) j = false) ->
+  reqs_ok E full tf = true -> fault_at 0 (o_faults O) = None ->
+  ulookup (aget k_uid j) (s_users (w_st w)) = Some u ->
+  (l = true -> u_locked u <= o_now O) -> u_confirmed u = false ->
+  step_refused w req O (p_confirm_notok_of cfg).
+Proof.
+  intros Rt b j E Hb Hx Rq Hf Hu Lk Cf.
+  apply (step_refusal_of_core w req O full tf fr l true r e (p_confirm_notok_of cfg) Rt Hb Hx).
+  intros h Hc Ho Hp Hn Hs.
+  apply (stack_core_confirm_refuses E full tf fr l h u Hc Ho Rq).
+  - unfold cur_pid. rewrite Hp. exact Hb.
+  - rewrite Hn. exact Hf.
+  - unfold cur_pid. rewrite Hp, Hs. exact Hu.
+  - intros Hl. apply is_locked_false_iff. exact (Lk Hl).
+  - exact Cf.
+Qed.
+End STEP.
+
+(* ================================================================================================ *)
+(* C19: who is logged in after a registration                                                        *)
+(* ================================================================================================ *)
+
+(* the hooks of the after-register event: the confirmation starter, once per load of the confirm
+   module, and nothing else *)
+Section HR.
+Variable E : env.
+Notation cfg := (e_cfg E).
+
+Lemma hooks_after_register_all : Forall (eq HConfirmStart) (hooks E EvAfterRegister).
+Proof.
+  unfold hooks. rewrite app_nil_r. induction (c_mods cfg) as [|m l IH]; cbn [flat_map]; [constructor|].
+  apply Forall_app. split; [|exact IH]. destruct m; cbn; repeat constructor.
+Qed.
+Lemma hooks_after_register_loaded : has_mod cfg MConfirm = true -> hooks E EvAfterRegister <> [].
+Proof.
+  unfold has_mod, hooks. rewrite app_nil_r. induction (c_mods cfg) as [|m l IH]; cbn [existsb flat_map]; [discriminate|].
+  destruct m; cbn [modname_eqb orb hooks_of_mod app]; try exact IH; intros _; discriminate.
+Qed.
+Lemma hooks_after_register_none : has_mod cfg MConfirm = false -> hooks E EvAfterRegister = [].
+Proof.
+  unfold has_mod, hooks. rewrite app_nil_r. induction (c_mods cfg) as [|m l IH]; cbn [existsb flat_map]; [reflexivity|].
+  destruct m; cbn [modname_eqb orb hooks_of_mod app]; try exact IH; intros Hx; discriminate Hx.
+Qed.
+
+(* a confirmation mail to a given address *)
+Definition confirm_mail_to (addr : bytes) (m : mail) : Prop := m_kind m = bs "confirm" /\ m_to m = [addr].
+
+(* the confirmation starter on a state with a context user: it never reports "not handled"; when
+   it returns, exactly one confirmation mail to the user's address has been recorded; the context
+   user keeps his address *)
+Lemma confirm_start_spec rm hd h cu r h' :
+  h_cuser h = Some cu -> run_hook E HConfirmStart rm hd h = (r, h') ->
+  (exists cu', h_cuser h' = Some cu' /\ u_email cu' = u_email cu) /\
+  ((r = Ok true /\ exists m, h_mails h' = h_mails h ++ [m] /\ confirm_mail_to (u_email cu) m) \/
+   ((exists e, r = Err e) /\
+    (h_mails h' = h_mails h \/ exists m, h_mails h' = h_mails h ++ [m] /\ confirm_mail_to (u_email cu) m))).
+Proof.
+  intros Hc Eq. unfold run_hook, current_user in Eq.
+  unfold bind at 1 in Eq. unfold bind at 1 in Eq. unfold get_h in Eq. rewrite Hc in Eq.
+  unfold ret at 1 in Eq. cbn beta iota in Eq.
+  set (fr := fun h : hst => (h_mails h, h_cuser h)) in *.
+  assert (Fr : forall h1 h2, fr h2 = fr h1 -> h_mails h2 = h_mails h1 /\ h_cuser h2 = h_cuser h1)
+    by (unfold fr; intros h1 h2 Hx; inversion Hx; auto).
+  apply bind_inv in Eq as [([[sel ver] tok] & h1 & E1 & E2)|[(e & E1 & ->)|(E1 & ->)]].
+  2,3: assert (G : rl (Rk fr) (generate_token E)) by (rl_go; rk_side);
+       destruct (Fr _ _ (G _ _ _ E1)) as (M1 & C1); rewrite M1, C1.
+  2:{ split; [eauto|]. right. split; [eauto|left; reflexivity]. }
+  2:{ exfalso. unfold generate_token in E1.
+      apply bind_inv in E1 as [(a & h2 & F1 & F2)|[(e & F1 & Hr)|(F1 & Hr)]]; try (inversion F2; fail);
+        unfold Monad.fresh in F1; destruct (take_chunk 64 (h_fresh h)) as [[cc tl0]|]; inversion F1. }
+  assert (G1 : rl (Rk fr) (generate_token E)) by (rl_go; rk_side).
+  destruct (Fr _ _ (G1 _ _ _ E1)) as (M1 & C1). clear G1 E1.
+  cbn beta iota zeta in E2. unfold store_back in E2.
+  set (u' := cu <| u_confirmed := false |> <| u_csel := sel |> <| u_cver := ver |>) in *.
+  assert (Em : u_email u' = u_email cu) by reflexivity.
+  apply bind_inv in E2 as [(a & h2 & F1 & E2)|[(e & F1 & _)|(F1 & _)]]; try (inversion F1; fail).
+  inversion F1; subst a h2; clear F1.
+  apply bind_inv in E2 as [(a & h2 & F1 & E2)|[(e & F1 & _)|(F1 & _)]]; try (inversion F1; fail).
+  inversion F1; subst a h2; clear F1.
+  match type of E2 with bind _ _ ?hh = _ =>
+    assert (M2 : h_mails hh = h_mails h) by exact M1;
+    assert (C2 : h_cuser hh = Some u') by reflexivity;
+    revert E2 M2 C2; generalize hh; intros h2 E2 M2 C2 end.
+  apply bind_inv in E2 as [(a & h3 & F1 & E2)|[(e & F1 & ->)|(F1 & ->)]].
+  2,3: assert (G : rl (Rk fr) (try (st_save (e_O E) u') (fun r => match r with
+                                | Ok _ => ret tt | Err _ => fail ErrOther | Panic => panic end)))
+         by (rl_go; rk_side);
+       destruct (Fr _ _ (G _ _ _ F1)) as (M3 & C3); rewrite M3, C3, M2, C2.
+  2:{ split; [eauto|]. right. split; [eauto|left; reflexivity]. }
+  2:{ exfalso. apply try_inv in F1 as [(x & h4 & S1 & NP & K)|(S1 & _)].
+      - destruct x; inversion K. congruence.
+      - apply st_save_spec in S1 as (_ & _ & _ & _ & [(e' & Hr & _)|(Hr & _)]); discriminate Hr. }
+  assert (G3 : rl (Rk fr) (try (st_save (e_O E) u') (fun r => match r with
+                                | Ok _ => ret tt | Err _ => fail ErrOther | Panic => panic end)))
+    by (rl_go; rk_side).
+  destruct (Fr _ _ (G3 _ _ _ F1)) as (M3 & C3). clear G3 F1.
+  apply bind_inv in E2 as [(a4 & h4 & F1 & E2)|[(e & F1 & _)|(F1 & _)]]; try (inversion F1; fail).
+  inversion F1; subst a4 h4; clear F1.
+  apply bind_inv in E2 as [(a5 & h5 & F1 & E2)|[(e & F1 & _)|(F1 & _)]]; try (inversion F1; fail).
+  unfold send_mail, modify in F1. inversion F1; subst a5 h5; clear F1.
+  match type of E2 with bind _ _ ?hh = _ =>
+    assert (M5 : h_mails hh = h_mails h ++ [mkMail [u_email u'] (bs "confirm") (mail_url E (bs "/confirm") true f_cnf tok)])
+      by (cbn; rewrite M3, M2; reflexivity);
+    assert (C5 : h_cuser hh = Some u') by (cbn; rewrite C3, C2; reflexivity);
+    revert E2 M5 C5; generalize hh; intros h5 E2 M5 C5 end.
+  assert (Pm : confirm_mail_to (u_email cu) (mkMail [u_email u'] (bs "confirm") (mail_url E (bs "/confirm") true f_cnf tok)))
+    by (split; [reflexivity|rewrite Em; reflexivity]).
+  assert (G5 : rl (Rk fr) (redirect E (ro_ok (p_confirm_notok_of cfg)))) by (rl_go; rk_side).
+  apply bind_inv in E2 as [(a6 & h6 & F1 & E2)|[(e & F1 & ->)|(F1 & ->)]];
+    destruct (Fr _ _ (G5 _ _ _ F1)) as (M6 & C6).
+  - inversion E2; subst r h'. rewrite M6, C6, M5, C5. split; [eauto|]. left. split; [reflexivity|eauto].
+  - rewrite M6, C6, M5, C5. split; [eauto|]. right. split; [eauto|right; eauto].
+  - exfalso. assert (G : forall hh x hh', redirect E (ro_ok (p_confirm_notok_of cfg)) hh = (x, hh') -> x <> Panic).
+    { intros hh x hh' Rd. unfold redirect in Rd. destruct (c_api cfg).
+      - apply bind_inv in Rd as [(b1 & g1 & R1 & R2)|[(e & R1 & ->)|(R1 & ->)]]; try discriminate.
+        + inversion R2. discriminate.
+        + unfold render, backend in R1. destruct (fault_at _ _) as [[|]|]; inversion R1.
+      - cbn [ro_ok ro_success ro_failure] in Rd. inversion Rd. discriminate. }
+    exact (G _ _ _ F1 eq_refl).
+Qed.
+
+(* Events.call over confirmation starters only: one confirmation mail per hook that returned, and
+   the chain never ends "not handled" unless it is empty *)
+Lemma call_confirm_start hs : Forall (eq HConfirmStart) hs -> forall rm hd h cu r h',
+  h_cuser h = Some cu -> call E hs rm hd h = (r, h') ->
+  exists ms, h_mails h' = h_mails h ++ ms /\ Forall (confirm_mail_to (u_email cu)) ms /\
+    forall b, r = Ok b -> length ms = length hs /\ (hs <> [] -> b = true).
+Proof.
+  induction 1 as [|hk hs <- _ IH]; intros rm hd h cu r h' Hc Eq.
+  - inversion Eq; subst. exists []. rewrite app_nil_r. split; [reflexivity|]. split; [constructor|].
+    intros b _. split; [reflexivity|]. intros Hx; congruence.
+  - cbn [call] in Eq.
+    apply bind_inv in Eq as [(i & h1 & E1 & E2)|[(e & E1 & ->)|(E1 & ->)]];
+      destruct (confirm_start_spec _ _ _ _ _ _ Hc E1) as ((cu' & C1 & Em) & [(Hr & m & M1 & Pm)|((e' & Hr) & Mx)]);
+      try discriminate Hr.
+    + inversion Hr; subst i. rewrite Bool.orb_true_r in E2.
+      destruct (IH _ _ _ _ _ _ C1 E2) as (ms & M2 & F2 & Ok2).
+      exists (m :: ms). rewrite M2, M1, <- app_assoc. split; [reflexivity|].
+      split; [constructor; [exact Pm|rewrite <- Em; exact F2]|].
+      intros b Hb. destruct (Ok2 b Hb) as (L2 & B2). split; [cbn; congruence|]. intros _.
+      destruct hs as [|hk2 hs2]; [|apply B2; discriminate].
+      inversion E2 as [[Hr2 Hh2]]. congruence.
+    + destruct Mx as [Mx|(m & Mx & Pm)].
+      * exists []. rewrite app_nil_r. split; [exact Mx|]. split; [constructor|]. intros b Hb; discriminate Hb.
+      * exists [m]. split; [exact Mx|]. split; [constructor; [exact Pm|constructor]|]. intros b Hb; discriminate Hb.
+Qed.
+End HR.
+
+Section RG2.
+Variable E : env.
+Notation cfg := (e_cfg E).
+Notation vals := (values E).
+Notation pid := (reg_pid E).
+
+(* what /register does once Create has succeeded *)
+Definition reg_tail : M unit :=
+  handled <- fire E EvAfterRegister false ;;
+  if handled then ret tt
+  else put_session k_uid pid ;;; log [pid] ;;; redirect E (ro_ok (p_register_ok_of cfg)).
+
+(* everything a registration that creates nothing leaves alone *)
+Definition reg_frame (h : hst) := (h_st h, h_mails h, h_sev h, h_cev h, h_cuser h).
+Lemma reg_frame_inv h1 h2 : reg_frame h1 = reg_frame h2 ->
+  h_st h1 = h_st h2 /\ h_mails h1 = h_mails h2 /\ h_sev h1 = h_sev h2 /\ h_cev h1 = h_cev h2 /\ h_cuser h1 = h_cuser h2.
+Proof. unfold reg_frame. intros H. inversion H. auto. Qed.
+
+Definition reg_frame_o (h : hst) := (reg_frame h, h_out h).
+Lemma reg_frame_o_inv h1 h2 : reg_frame_o h1 = reg_frame_o h2 -> reg_frame h1 = reg_frame h2 /\ h_out h1 = h_out h2.
+Proof. intros H. split; [exact (f_equal fst H)|exact (f_equal snd H)]. Qed.
+
+Lemma st_create_spec3 u h r h' :
+  st_create (e_O E) u h = (r, h') ->
+  ((exists e, r = Err e) /\ reg_frame_o h' = reg_frame_o h) \/
+  (r = Ok tt /\ ulookup (u_pid u) (s_users (h_st h)) = None /\
+   h_st h' = h_st h <| s_users := s_users (h_st h) ++ [(u_pid u, u)] |> /\
+   h_mails h' = h_mails h /\ h_sev h' = h_sev h /\ h_cev h' = h_cev h /\ h_cuser h' = h_cuser h /\ h_out h' = h_out h).
+Proof.
+  unfold st_create, backend. intros Eq.
+  destruct (fault_at (h_ncalls h) (o_faults (e_O E))) as [[|]|].
+  - left. inversion Eq; subst. split; [eauto|reflexivity].
+  - left. inversion Eq; subst. split; [eauto|reflexivity].
+  - cbn in Eq. destruct (ulookup (u_pid u) (s_users (h_st h))) eqn:L; inversion Eq; subst.
+    + left. split; [eauto|reflexivity].
+    + right. cbn. auto 10.
+Qed.
+
+(* the handler cut after Create: either nothing was created and the request left storage, mail
+   outbox, client-state events and context user exactly as they were, or the submitted values
+   passed the policy, the pid was free, the new record is in storage and in the context, and the
+   rest of the handler is [reg_tail] *)
+Lemma register_post_cut h r h' :
+  register_post E h = (r, h') ->
+  reg_frame h' = reg_frame h \/
+  (reg_ok E /\ ulookup pid (s_users (h_st h)) = None /\
+   exists k1, h_st k1 = h_st h <| s_users := s_users (h_st h) ++ [(pid, reg_user E)] |> /\
+     h_mails k1 = h_mails h /\ h_sev k1 = h_sev h /\ h_cev k1 = h_cev h /\ h_out k1 = h_out h /\
+     h_cuser k1 = Some (reg_user E) /\ reg_tail k1 = (r, h')).
+Proof.
+  intros Eq. unfold register_post in Eq.
+  apply bind_inv in Eq as [(v & h1 & E1 & E2)|[(e & E1 & _)|(E1 & _)]];
+    apply read_values_spec in E1 as [-> [Hv|Hv]]; try (left; reflexivity).
+  2:{ discriminate Hv. }
+  inversion Hv; subst v; clear Hv.
+  destruct (valid [pid_rule E; password_rule] pw_pairs vals) eqn:Vd; cbn [negb] in E2.
+  2:{ left. assert (G : rl (Rk reg_frame) (log [] ;;; respond E (bs "register") [(bs "errors", DOther); (bs "preserve", DOther)]))
+        by (rl_go; rk_side). exact (G _ _ _ E2). }
+  cbv zeta in E2.
+  destruct ((72 <? length (aget f_password vals))%nat) eqn:Ln.
+  { left. assert (G : rl (Rk reg_frame) (backend (e_O E) KHash (@fail unit ErrOther))) by (rl_go; rk_side).
+    exact (G _ _ _ E2). }
+  apply Nat.ltb_ge in Ln.
+  assert (Gh : rl (Rk reg_frame_o) (backend (e_O E) KHash (ret (pwhash (e_C E) (aget f_password vals)))))
+    by (rl_go; rk_side).
+  apply bind_inv in E2 as [(pass & h2 & F1 & E2)|[(e & F1 & _)|(F1 & _)]];
+    destruct (reg_frame_o_inv _ _ (Gh _ _ _ F1)) as (Fh1 & Fh2);
+    try (left; exact Fh1).
+  apply reg_frame_inv in Fh1 as (S2 & M2 & V2 & W2 & C2).
+  apply hash_spec in F1 as (_ & _ & _ & Hp). specialize (Hp pass eq_refl). subst pass.
+  change (try (st_create (e_O E) (reg_user E)) (fun r0 =>
+            match r0 with
+            | Ok _ => set_cuser (reg_user E) ;;; reg_tail
+            | Err ErrUserFound =>
+                log [pid] ;;; respond E (bs "register") [(bs "errors", DOther); (bs "preserve", DOther)]
+            | Err e => fail e
+            | Panic => panic
+            end) h2 = (r, h')) in E2.
+  apply try_inv in E2 as [(x & k1 & L & NP & K)|(L & ->)].
+  2:{ exfalso. apply st_create_spec3 in L as [((e & Hr) & _)|(Hr & _)]; discriminate Hr. }
+  apply st_create_spec3 in L as [((e & ->) & Fk)|(-> & Hn & St & Mk & Vk & Wk & Ck & Ow)].
+  - left. destruct (reg_frame_o_inv _ _ Fk) as (Fk1 & Fk2).
+    assert (G : rl (Rk reg_frame) (match e with
+                  | ErrUserFound => log [pid] ;;; respond E (bs "register") [(bs "errors", DOther); (bs "preserve", DOther)]
+                  | e0 => @fail unit e0 end)) by (destruct e; rl_go; rk_side).
+    pose proof (G _ _ _ K) as Gk. unfold Rk in Gk. rewrite Gk, Fk1. unfold reg_frame. congruence.
+  - right. change (u_pid (reg_user E)) with pid in *. rewrite S2 in Hn.
+    split; [split; assumption|]. split; [exact Hn|].
+    apply bind_inv in K as [(a & k2 & F2 & K)|[(e & F2 & _)|(F2 & _)]]; try (inversion F2; fail).
+    inversion F2; subst a k2; clear F2.
+    exists (k1 <| h_cuser := Some (reg_user E) |>).
+    split; [cbn; rewrite St, S2; reflexivity|]. split; [cbn; congruence|]. split; [cbn; congruence|].
+    split; [cbn; congruence|]. split; [cbn; congruence|]. split; [reflexivity|exact K].
+Qed.
+
+(* the new record stays in storage through the hooks *)
+Lemma reg_tail_keeps_record k1 r h' L0 :
+  h_cuser k1 = Some (reg_user E) ->
+  ulookup pid (s_users (h_st k1)) = Some (reg_user E) ->
+  (forall p, p <> pid -> ulookup p (s_users (h_st k1)) = ulookup p L0) ->
+  reg_tail k1 = (r, h') ->
+  exists su, ulookup pid (s_users (h_st h')) = Some su /\ reg_like E su.
+Proof.
+  intros Hc Hs Fr K.
+  assert (I2 : hinv pid (reg_like E) L0 k1).
+  { split; [exists (reg_user E); repeat split; [exact Hc|apply reg_like_self]|]. split.
+    - exists (reg_user E). split; [exact Hs|apply reg_like_self].
+    - exact Fr. }
+  assert (G : keeps_inv pid (reg_like E) L0 reg_tail).
+  { unfold reg_tail. apply keeps_bind; [apply keeps_fire_all; [apply reg_like_lock|apply reg_like_confirm]|].
+    intros [|]; apply keeps_of_pres; pres_go. }
+  destruct (G _ _ _ I2 K) as (_ & Hs' & _). exact Hs'.
+Qed.
+
+(* a registration that leaves storage as it was appends no session event at all (in particular
+   nobody is logged in) and sends no mail *)
+Lemma register_nothing_created h r h' :
+  register_post E h = (r, h') -> h_st h' = h_st h ->
+  h_sev h' = h_sev h /\ h_cev h' = h_cev h /\ h_mails h' = h_mails h /\ h_cuser h' = h_cuser h.
+Proof.
+  intros Eq St. apply register_post_cut in Eq as [Fr|(_ & Hn & k1 & S1 & _ & _ & _ & _ & C1 & K)].
+  - apply reg_frame_inv in Fr as (_ & A & B & C0 & D). auto.
+  - exfalso.
+    destruct (reg_tail_keeps_record k1 r h' (s_users (h_st h)) C1) as (su & Hs & _); [| |exact K|].
+    + rewrite S1. cbn. apply ulookup_snoc_new. exact Hn.
+    + intros p Np. rewrite S1. cbn. apply ulookup_snoc_neq. exact Np.
+    + rewrite St, Hn in Hs. discriminate Hs.
+Qed.
+
+Lemma created_not_frame h h' su :
+  ulookup pid (s_users (h_st h)) = None -> ulookup pid (s_users (h_st h')) = Some su -> reg_frame h' <> reg_frame h.
+Proof. intros Hn Hs Fr. apply reg_frame_inv in Fr as (St & _). rewrite St, Hn in Hs. discriminate Hs. Qed.
+
+Lemma neutral_no_uid ls : Forall sess_neutral ls -> forall v, ~ In (Put k_uid v) ls.
+Proof. intros F v Hin. rewrite Forall_forall in F. exact (F _ Hin eq_refl). Qed.
+
+(* the confirm module loaded: whatever the outcome, only uid-neutral session events; and when the
+   account was created and the request succeeded, at least one confirmation mail - one per load of
+   the module - was recorded, each to the new account's address *)
+Lemma register_confirm_loaded h r h' :
+  has_mod cfg MConfirm = true -> register_post E h = (r, h') ->
+  (exists ls, h_sev h' = h_sev h ++ ls /\ Forall sess_neutral ls) /\
+  (forall su, ulookup pid (s_users (h_st h)) = None -> ulookup pid (s_users (h_st h')) = Some su ->
+     r = Ok tt ->
+     exists ms, h_mails h' = h_mails h ++ ms /\ ms <> [] /\ Forall (confirm_mail_to (u_email (reg_user E))) ms).
+Proof.
+  intros HM Eq. apply register_post_cut in Eq as [Fr|(_ & _ & k1 & S1 & M1 & V1 & _ & _ & C1 & K)].
+  - split.
+    + apply reg_frame_inv in Fr as (_ & _ & B & _). exists []. rewrite app_nil_r. auto.
+    + intros su Hn Hs _. exfalso. exact (created_not_frame _ _ _ Hn Hs Fr).
+  - unfold reg_tail in K.
+    apply bind_inv in K as [(hd & h1 & F1 & K)|[(e & F1 & ->)|(F1 & ->)]];
+      destruct (neutral_fire E EvAfterRegister false _ _ _ F1) as [(ls & lc & Sv & _ & Fn & _) _];
+      rewrite V1 in Sv.
+    2,3: split; [eauto|intros su _ _ Hr; discriminate Hr].
+    unfold fire in F1.
+    destruct (call_confirm_start E _ (hooks_after_register_all E) _ _ _ _ _ _ C1 F1) as (ms & Ms & Fm & Okm).
+    destruct (Okm hd eq_refl) as (Ln & Hd). specialize (Hd (hooks_after_register_loaded E HM)). subst hd.
+    inversion K; subst r h'. split; [eauto|].
+    intros su _ _ _. exists ms. rewrite Ms, M1. split; [reflexivity|]. split; [|exact Fm].
+    intros ->. cbn in Ln. symmetry in Ln. apply length_zero_iff_nil in Ln.
+    exact (hooks_after_register_loaded E HM Ln).
+Qed.
+
+(* the confirm module not loaded and the account created: the session is written for the submitted
+   pid, and a request that succeeds from a state in which nothing was written flushes that event
+   with its response *)
+Lemma register_no_confirm_login h r h' su :
+  has_mod cfg MConfirm = false -> register_post E h = (r, h') ->
+  ulookup pid (s_users (h_st h)) = None -> ulookup pid (s_users (h_st h')) = Some su ->
+  (exists ls, h_sev h' = h_sev h ++ Put k_uid pid :: ls /\ Forall sess_neutral ls) /\
+  h_mails h' = h_mails h /\
+  (h_out h = None -> r = Ok tt -> exists wr, h_out h' = Some wr /\ In (Put k_uid pid) (w_sev wr)).
+Proof.
+  intros HM Eq Hn Hs. apply register_post_cut in Eq as [Fr|(_ & _ & k1 & S1 & M1 & V1 & _ & O1 & C1 & K)].
+  { exfalso. exact (created_not_frame _ _ _ Hn Hs Fr). }
+  unfold reg_tail, fire in K. rewrite (hooks_after_register_none E HM) in K. cbn [call] in K.
+  unfold bind at 1 in K. unfold ret at 1 in K. cbn beta iota in K.
+  unfold bind at 1 in K. unfold put_session at 1, modify at 1 in K.
+  match type of K with bind _ _ ?hh = _ =>
+    assert (V2 : h_sev hh = h_sev h ++ [Put k_uid pid]) by (cbn; rewrite V1; reflexivity);
+    assert (M2 : h_mails hh = h_mails h) by exact M1;
+    assert (O2 : h_out hh = h_out h) by exact O1;
+    revert K V2 M2 O2; generalize hh; intros k2 K V2 M2 O2 end.
+  assert (Gn : evs_all sess_neutral any_ev (log [pid] ;;; redirect E (ro_ok (p_register_ok_of cfg)))).
+  { apply evs_bind; [apply evs_log|intros _; apply neutral_redirect]. }
+  assert (Gm : rl (Rk h_mails) (log [pid] ;;; redirect E (ro_ok (p_register_ok_of cfg)))) by (rl_go; rk_side).
+  destruct (Gn _ _ _ K) as [(ls & lc & Sv & _ & Fn & _) _].
+  split; [exists ls; rewrite Sv, V2, <- app_assoc; auto|].
+  split; [rewrite (Gm _ _ _ K); exact M2|].
+  intros Ho Hr. subst r.
+  apply bind_inv in K as [(a & k3 & L1 & K)|[(e & L1 & Hx)|(L1 & Hx)]]; try discriminate Hx.
+  apply log_same in L1 as (_ & L1 & L2 & _).
+  apply redirect_unwritten in K; [|congruence]. cbv zeta in K.
+  destruct K as (_ & _ & _ & _ & [(_ & _ & Ow)|((e & Hx) & _)]); [|discriminate Hx].
+  eexists. split; [exact Ow|]. cbn [w_sev]. rewrite L2, V2. apply in_or_app. left. apply in_or_app. right. left. reflexivity.
+Qed.
+End RG2.
+
+(* C19 as one statement about a registration that created the account: somebody is logged in
+   exactly when the confirm module is not loaded *)
+Theorem register_login_iff E h r h' su ls :
+  register_post E h = (r, h') ->
+  ulookup (reg_pid E) (s_users (h_st h)) = None -> ulookup (reg_pid E) (s_users (h_st h')) = Some su ->
+  h_sev h' = h_sev h ++ ls ->
+  ((exists v, In (Put k_uid v) ls) <-> has_mod (e_cfg E) MConfirm = false) /\
+  (has_mod (e_cfg E) MConfirm = false ->
+     In (Put k_uid (reg_pid E)) ls /\ h_mails h' = h_mails h /\
+     (h_out h = None -> r = Ok tt -> exists wr, h_out h' = Some wr /\ In (Put k_uid (reg_pid E)) (w_sev wr))) /\
+  (has_mod (e_cfg E) MConfirm = true -> r = Ok tt ->
+     exists ms, h_mails h' = h_mails h ++ ms /\ ms <> [] /\
+                Forall (confirm_mail_to (u_email (reg_user E))) ms).
+Proof.
+  intros Eq Hn Hs Sv. destruct (has_mod (e_cfg E) MConfirm) eqn:HM.
+  - destruct (register_confirm_loaded E _ _ _ HM Eq) as ((ls0 & S0 & F0) & Ml).
+    rewrite S0 in Sv. apply app_inv_head in Sv. subst ls0.
+    split; [split; [intros (v & Hin); exfalso; exact (neutral_no_uid _ F0 v Hin)|discriminate]|].
+    split; [discriminate|]. intros _ Hr. exact (Ml su Hn Hs Hr).
+  - destruct (register_no_confirm_login E _ _ _ su HM Eq Hn Hs) as ((ls0 & S0 & F0) & Mm & Fl).
+    rewrite S0 in Sv. apply app_inv_head in Sv. subst ls.
+    split; [split; [reflexivity|intros _; exists (reg_pid E); left; reflexivity]|].
+    split; [|discriminate]. intros _. split; [left; reflexivity|]. split; [exact Mm|exact Fl].
+Qed.
+
+(* ================================================================================================ *)
+(* C16 (a) as one two-run statement                                                                  *)
+(* ================================================================================================ *)
+
+(* two requests that differ at most in the submitted password: everything else in the environment
+   is the same, and the submitted values agree on every key but "password" *)
+Definition same_but_password (E1 E2 : env) : Prop :=
+  e_C E1 = e_C E2 /\ e_cfg E1 = e_cfg E2 /\ e_O E1 = e_O E2 /\ e_cook E1 = e_cook E2 /\ e_sess E1 = e_sess E2 /\
+  q_browser (e_req E1) = q_browser (e_req E2) /\ q_meth (e_req E1) = q_meth (e_req E2) /\
+  q_route (e_req E1) = q_route (e_req E2) /\ q_path (e_req E1) = q_path (e_req E2) /\
+  q_rawquery (e_req E1) = q_rawquery (e_req E2) /\ q_query (e_req E1) = q_query (e_req E2) /\
+  q_badbody (e_req E1) = q_badbody (e_req E2) /\
+  forall k, k <> f_password -> alookup k (values E1) = alookup k (values E2).
+
+(* the lock redirect depends on the configuration only (it never follows the redir parameter) *)
+Lemma lock_view_cfg E1 E2 h : e_cfg E1 = e_cfg E2 -> lock_view E1 h = lock_view E2 h.
+Proof.
+  intros Hc. unfold lock_view, resp_of, flash_of. cbn [ro_fail ro_path ro_follow ro_success ro_failure].
+  rewrite !redirect_target_nofollow, Hc. reflexivity.
+Qed.
+
+Lemma pid_field_not_password E : pid_field E <> f_password.
+Proof. unfold pid_field. destruct (c_username (e_cfg E)); neq_const. Qed.
+
+Theorem login_locked_same_view E1 E2 :
+  same_but_password E1 E2 -> o_faults (e_O E1) = [] -> forall h r1 h1 r2 h2 u,
+  login_post E1 h = (r1, h1) -> login_post E2 h = (r2, h2) -> h_out h = None ->
+  q_badbody (e_req E1) = false -> (c_api (e_cfg E1) = true -> q_meth (e_req E1) <> GET) ->
+  NoDup (c_mods (e_cfg E1)) -> has_mod (e_cfg E1) MLock = true -> 0 < c_lock_duration (e_cfg E1) ->
+  ulookup (aget (pid_field E1) (values E1)) (s_users (h_st h)) = Some u ->
+  u_confirmed u = true -> o_now (e_O E1) < u_locked u ->
+  pwcheck (e_C E1) (u_password u) (aget f_password (values E1)) = true ->
+  pwcheck (e_C E2) (u_password u) (aget f_password (values E2)) = false ->
+  r1 = Ok tt /\ r2 = Ok tt /\ view h1 = view h2 /\ view h1 = lock_view E1 h.
+Proof.
+  intros (HC & Hcfg & HO & _ & _ & _ & Hm & _ & _ & _ & _ & Hbb & Hv) Nf h r1 h1 r2 h2 u
+         L1 L2 Ho Bb Api ND HM Hd Lu Cf Lk Pw1 Pw2.
+  destruct (login_locked_view_correct E1 Nf h r1 h1 u L1 Ho Bb Api ND HM Lu Cf Lk Pw1) as (-> & V1).
+  assert (Pf : pid_field E2 = pid_field E1) by (unfold pid_field; rewrite Hcfg; reflexivity).
+  assert (Lu2 : ulookup (aget (pid_field E2) (values E2)) (s_users (h_st h)) = Some u).
+  { rewrite Pf. unfold aget. rewrite <- (Hv _ (pid_field_not_password E1)). exact Lu. }
+  assert (Nf2 : o_faults (e_O E2) = []) by (rewrite <- HO; exact Nf).
+  assert (Bb2 : q_badbody (e_req E2) = false) by (rewrite <- Hbb; exact Bb).
+  assert (Api2 : c_api (e_cfg E2) = true -> q_meth (e_req E2) <> GET) by (rewrite <- Hcfg, <- Hm; exact Api).
+  assert (ND2 : NoDup (c_mods (e_cfg E2))) by (rewrite <- Hcfg; exact ND).
+  assert (HM2 : has_mod (e_cfg E2) MLock = true) by (rewrite <- Hcfg; exact HM).
+  assert (Hd2 : 0 < c_lock_duration (e_cfg E2)) by (rewrite <- Hcfg; exact Hd).
+  assert (Lk2 : o_now (e_O E2) < u_locked u) by (rewrite <- HO; exact Lk).
+  destruct (login_locked_view_wrong E2 Nf2 h r2 h2 u L2 Ho Bb2 Api2 ND2 HM2 Hd2 Lu2 Lk2 Pw2) as (-> & V2).
+  split; [reflexivity|]. split; [reflexivity|]. split; [|exact V1].
+  rewrite V1, V2. apply lock_view_cfg. exact Hcfg.
+Qed.
+
+(* ================================================================================================ *)
+(* the statements of Props/C03c.v                                                                    *)
+(* ================================================================================================ *)
+Lemma stack_blocks_locked_lemma E full tf fr c r e h res h' :
+  h_out h = None -> h_cuser h = None -> h_cpid h = None ->
+  app_stack E full tf fr true c r e h = (res, h') -> app_ran h' ->
+  exists pid u, stack_names E r pid /\
+    ulookup pid (s_users (h_st h)) = Some u /\ ulookup pid (s_users (h_st h')) = Some u /\
+    is_locked E u = false.
+Proof.
+  intros Ho Hc Hp Eq Ran.
+  destruct (stack_app_ran_lemma E full tf fr true c r e h res h' Ho Hc Hp Eq Ran) as (_ & pid & u & Nm & Lu & Su & Lk & _).
+  exists pid, u. split; [exact Nm|]. split; [exact Lu|]. split; [rewrite Su; exact Lu|exact (Lk eq_refl)].
+Qed.
+
+Lemma stack_blocks_unconfirmed_lemma E full tf fr l r e h res h' :
+  h_out h = None -> h_cuser h = None -> h_cpid h = None ->
+  app_stack E full tf fr l true r e h = (res, h') -> app_ran h' ->
+  exists pid u, stack_names E r pid /\
+    ulookup pid (s_users (h_st h)) = Some u /\ ulookup pid (s_users (h_st h')) = Some u /\
+    u_confirmed u = true.
+Proof.
+  intros Ho Hc Hp Eq Ran.
+  destruct (stack_app_ran_lemma E full tf fr l true r e h res h' Ho Hc Hp Eq Ran) as (_ & pid & u & Nm & Lu & Su & _ & Cf).
+  exists pid, u. split; [exact Nm|]. split; [exact Lu|]. split; [rewrite Su; exact Lu|exact (Cf eq_refl)].
+Qed.
+
+Lemma step_blocks_locked_lemma C cfg w req O full tf fr c r e :
+  q_route req = RApp full tf fr true c r e ->
+  let b := q_browser req in
+  let E := mkEnv C cfg O req (jar_get b (w_cook w)) (jar_get b (w_sess w)) in
+  let w' := fst (step C cfg w (AReq req) O) in
+  let o := snd (step C cfg w (AReq req) O) in
+  (exists d, ob_resp o = Some (RespPage 200 (bs "app") d)) ->
+  exists pid u, stack_names E r pid /\
+    ulookup pid (s_users (w_st w)) = Some u /\ ulookup pid (s_users (w_st w')) = Some u /\
+    u_locked u <= o_now O.
+Proof.
+  intros Rt b E w' o Hd.
+  destruct (step_app_served_lemma C cfg w req O full tf fr true c r e Rt Hd) as (_ & _ & pid & u & Nm & Lu & Su & Lk & _).
+  exists pid, u. split; [exact Nm|]. split; [exact Lu|]. split; [|exact (Lk eq_refl)].
+  unfold w'. rewrite Su. exact Lu.
+Qed.
+
+Lemma step_blocks_unconfirmed_lemma C cfg w req O full tf fr l r e :
+  q_route req = RApp full tf fr l true r e ->
+  let b := q_browser req in
+  let E := mkEnv C cfg O req (jar_get b (w_cook w)) (jar_get b (w_sess w)) in
+  let w' := fst (step C cfg w (AReq req) O) in
+  let o := snd (step C cfg w (AReq req) O) in
+  (exists d, ob_resp o = Some (RespPage 200 (bs "app") d)) ->
+  exists pid u, stack_names E r pid /\
+    ulookup pid (s_users (w_st w)) = Some u /\ ulookup pid (s_users (w_st w')) = Some u /\
+    u_confirmed u = true.
+Proof.
+  intros Rt b E w' o Hd.
+  destruct (step_app_served_lemma C cfg w req O full tf fr l true r e Rt Hd) as (_ & _ & pid & u & Nm & Lu & Su & _ & Cf).
+  exists pid, u. split; [exact Nm|]. split; [exact Lu|]. split; [|exact (Cf eq_refl)].
+  unfold w'. rewrite Su. exact Lu.
+Qed.
+
+Lemma step_refused_reading C cfg w req O p :
+  step_refused C cfg w req O p <->
+  (let w' := fst (step C cfg w (AReq req) O) in
+   let o := snd (step C cfg w (AReq req) O) in
+   w_st w' = w_st w /\ ob_err o = false /\ ob_panic o = false /\
+   (ob_resp o = Some (if c_api cfg then RespRedirectAPI 307 p true else RespRedirect302 p) \/
+    (ob_resp o = None /\ c_api cfg = true /\ exists n ek, fault_at n (o_faults O) = Some ek)) /\
+   (c_api cfg = false -> ob_resp o <> None ->
+      alookup k_flash_err (jar_get (q_browser req) (w_sess w')) = Some v_flash)).
+Proof. reflexivity. Qed.
+
+(* ================================================================================================ *)
+(* the statements of Props/C19c.v, with the submitted pid and the new account's address spelled out *)
+(* ================================================================================================ *)
+Lemma register_login_iff_lemma (E : env) h r h' su ls :
+  register_post E h = (r, h') ->
+  ulookup (aget (pid_field E) (values E)) (s_users (h_st h)) = None ->
+  ulookup (aget (pid_field E) (values E)) (s_users (h_st h')) = Some su ->
+  h_sev h' = h_sev h ++ ls ->
+  ((exists v, In (Put k_uid v) ls) <-> has_mod (e_cfg E) MConfirm = false) /\
+  (has_mod (e_cfg E) MConfirm = false ->
+     In (Put k_uid (aget (pid_field E) (values E))) ls /\ h_mails h' = h_mails h /\
+     (h_out h = None -> r = Ok tt ->
+        exists wr, h_out h' = Some wr /\ In (Put k_uid (aget (pid_field E) (values E))) (w_sev wr))) /\
+  (has_mod (e_cfg E) MConfirm = true -> r = Ok tt ->
+     exists ms, h_mails h' = h_mails h ++ ms /\ ms <> [] /\
+       Forall (confirm_mail_to (if c_username (e_cfg E) then aget f_email (arbitrary_of (values E))
+                                else aget (pid_field E) (values E))) ms).
+Proof. exact (register_login_iff E h r h' su ls). Qed.
+
+Lemma register_confirm_loaded_lemma (E : env) h r h' :
+  has_mod (e_cfg E) MConfirm = true -> register_post E h = (r, h') ->
+  exists ls, h_sev h' = h_sev h ++ ls /\ forall v, ~ In (Put k_uid v) ls.
+Proof.
+  intros HM Eq. destruct (register_confirm_loaded E _ _ _ HM Eq) as ((ls & Sv & F) & _).
+  exists ls. split; [exact Sv|exact (neutral_no_uid ls F)].
+Qed.
+
+Lemma register_no_login_without_account (E : env) h r h' :
+  register_post E h = (r, h') -> h_st h' = h_st h ->
+  h_sev h' = h_sev h /\ h_cev h' = h_cev h /\ h_mails h' = h_mails h /\ h_cuser h' = h_cuser h /\
+  forall ls, h_sev h' = h_sev h ++ ls -> forall v, ~ In (Put k_uid v) ls.
+Proof.
+  intros Eq St. destruct (register_nothing_created E _ _ _ Eq St) as (A & B & C0 & D).
+  repeat (split; [assumption|]). intros ls Sv v Hin. rewrite A in Sv.
+  rewrite <- (app_nil_r (h_sev h)) in Sv at 1. apply app_inv_head in Sv. subst ls. destruct Hin.
+Qed.
+
+Lemma after_register_hooks_lemma (E : env) :
+  Forall (eq HConfirmStart) (hooks E EvAfterRegister) /\
+  (has_mod (e_cfg E) MConfirm = true -> hooks E EvAfterRegister <> []) /\
+  (has_mod (e_cfg E) MConfirm = false -> hooks E EvAfterRegister = []).
+Proof.
+  split; [apply hooks_after_register_all|]. split; [apply hooks_after_register_loaded|apply hooks_after_register_none].
+Qed.
+
+Lemma same_but_password_reading E1 E2 :
+  same_but_password E1 E2 <->
+  (e_C E1 = e_C E2 /\ e_cfg E1 = e_cfg E2 /\ e_O E1 = e_O E2 /\ e_cook E1 = e_cook E2 /\ e_sess E1 = e_sess E2 /\
+   q_browser (e_req E1) = q_browser (e_req E2) /\ q_meth (e_req E1) = q_meth (e_req E2) /\
+   q_route (e_req E1) = q_route (e_req E2) /\ q_path (e_req E1) = q_path (e_req E2) /\
+   q_rawquery (e_req E1) = q_rawquery (e_req E2) /\ q_query (e_req E1) = q_query (e_req E2) /\
+   q_badbody (e_req E1) = q_badbody (e_req E2) /\
+   forall k, k <> f_password -> alookup k (values E1) = alookup k (values E2)).
+Proof. reflexivity. Qed.
+
+(* the relation is inhabited the way one expects: overwrite the form's password field *)
+Lemma alookup_app_l k (a b : amap) :
+  alookup k (a ++ b) = match alookup k a with Some v => Some v | None => alookup k b end.
+Proof. induction a as [|[k' v] a IH]; cbn; [reflexivity|]. destruct (beqb k k'); [reflexivity|exact IH]. Qed.
+
+Lemma set_password_same (E : env) pw :
+  same_but_password E (mkEnv (e_C E) (e_cfg E) (e_O E)
+    (mkRequest (q_browser (e_req E)) (q_meth (e_req E)) (q_route (e_req E)) (q_path (e_req E))
+               (q_rawquery (e_req E)) (q_query (e_req E)) (aput f_password pw (q_form (e_req E)))
+               (q_badbody (e_req E)))
+    (e_cook E) (e_sess E)).
+Proof.
+  unfold same_but_password. cbn [e_C e_cfg e_O e_cook e_sess e_req q_browser q_meth q_route q_path q_rawquery q_query q_badbody].
+  repeat (split; [reflexivity|]).
+  intros k Nk. unfold values. cbn [e_cfg e_req q_form q_query].
+  destruct (c_api (e_cfg E)).
+  - symmetry. apply alookup_aput_neq. exact Nk.
+  - rewrite !alookup_app_l. rewrite (alookup_aput_neq _ _ pw _ Nk). reflexivity.
 Qed.
